@@ -805,6 +805,10 @@ func c08Parse(c *Ctx, f *ssa.Function) {
 		lineOK = true
 	}
 	c.check(lineOK, "C08.parse.dispatch", f, "each line is s.Bytes() of this iteration", um, "the line parsed is the line scanned")
+	// a fresh record per line: the set may keep the pointer it is given
+	recAlloc, isAlloc := rec.(*ssa.Alloc)
+	c.check(isAlloc && recAlloc.Heap && body[recAlloc.Block()], "C08.parse.dispatch", f, "the record passed to UnmarshalText / dst.Add is allocated inside the loop", um,
+		"a record reused across lines is overwritten after it was delivered: every retained *Record ends up describing the last line")
 	var srcName ssa.Value
 	for b := range body {
 		for _, in := range b.Instrs {
